@@ -652,6 +652,87 @@ def gemmxMeaning (cfg : List Streamer) (op : StreamOp) (P : GParams) : Field →
   | .temporalLoopBound => some P.tlb.den | .bypassSIMD => some P.byp.den
   | f => streamMeaning cfg op f
 
+/-! ### gemmx kernel registers, absolute: read off the operation (kernel attributes, stride patterns), not off `P` -/
+
+def bv (x : Int) : BitVec 32 := BitVec.ofInt 32 x
+
+/-- four 8-bit fields at bit offsets 24, 16, 8, 0 -/
+def word4 (a b c d : BitVec 32) : BitVec 32 := a <<< 24 ||| b <<< 16 ||| c <<< 8 ||| d
+
+/-- csr0: `min_int (i8) | max_int (i8) | out_zp (i8) | in_zp (i8)`, each forced to 8 bits -/
+def csr0Spec (r : Rescale) : BitVec 32 :=
+  word4 (bv r.minI &&& 255) (bv r.maxI &&& 255) (bv r.outZp &&& 255) (bv r.inZp &&& 255)
+
+/-- `shift_i`: the shifts of channels 4i … 4i+3, channel 4i in the low byte -/
+def shiftWord (s : List Int) (i : Nat) : Option (BitVec 32) :=
+  (s[4 * i]?).bind fun a => (s[4 * i + 1]?).bind fun b => (s[4 * i + 2]?).bind fun c => (s[4 * i + 3]?).map fun d =>
+    word4 (bv d) (bv c) (bv b) (bv a)
+
+/-- the output stream of a matmul: operand 2 (D8) for i8 output, the last operand (D32) otherwise -/
+def outPattern (op : GemmxOp) : Option Pattern := if op.i8out then op.s.pats[2]? else op.s.pats.getLast?
+
+/-- temporal steps of stream A -/
+def stepsA (op : GemmxOp) : Option Int := (op.s.pats[0]?).map fun p => prodI (p.dims.map (·.1))
+
+/-- non-reduction steps of the output stream -/
+def macM (op : GemmxOp) : Option Int :=
+  (outPattern op).map fun last => prodI ((last.dims.filter fun d => d.2 ≠ 0).map (·.1))
+
+/-- run-time value of a zero point of the matmul: an input of the qmac generic, 0 for mac -/
+def zpaDen : Option (Nat × Nat) → Den
+  | some (a, _) => fun env => env (.inp a)
+  | none => konst 0
+def zpbDen : Option (Nat × Nat) → Den
+  | some (_, b) => fun env => env (.inp b)
+  | none => konst 0
+
+/-- mac / qmac (any chain of generics): loop counts from the stride patterns, zero points from the qmac, rescale
+parameters from `effRescale` = the trailing rescale (single values broadcast to `n` channels) or the defaults -/
+def macSpec (n : Nat) (op : GemmxOp) (zp : Option (Nat × Nat)) : Field → Option Den
+  | .K => (macM op).bind fun m => (stepsA op).map fun s => konst (Int.fdiv s m)
+  | .N => some (konst 1)
+  | .M => (macM op).map konst
+  | .subtractions => some fun env => (zpaDen zp env &&& 255) ||| ((zpbDen zp env &&& 255) <<< 8)   -- zp_b | zp_a
+  | .csr0 => some (if op.i8out then fun _ => csr0Spec (effRescale n op) else konst 0)
+  | .csr1 => some (if op.i8out then konst (effRescale n op).dr else konst 0)
+  | .shift i =>
+    if i < ceil4 n then
+      (if op.i8out then (shiftWord (effRescale n op).shifts i).map fun w => fun _ => w else some (konst 0))
+    else none
+  | .mult i => if i < n then (if op.i8out then ((effRescale n op).mults[i]?).map konst else some (konst 1)) else none
+  | .temporalLoopBound => if op.i8out then (macM op).map konst else some (konst 0)
+  | .bypassSIMD => some (if op.i8out then konst 0 else konst 1)
+  | _ => none
+
+/-- rescale only (simd): K = N = 1, M = steps of the stream, per-tensor shift / multiplier (element 0) -/
+def rescaleSpec (n : Nat) (op : GemmxOp) (r : Rescale) : Field → Option Den
+  | .K => some (konst 1)
+  | .N => some (konst 1)
+  | .M => (stepsA op).map konst
+  | .subtractions => some (konst 0)
+  | .csr0 => some fun _ => csr0Spec r
+  | .csr1 => some (konst r.dr)
+  | .shift i => if i < ceil4 n then (r.shifts[0]?).map fun s => fun _ => word4 (bv s) (bv s) (bv s) (bv s) else none
+  | .mult i => if i < n then (r.mults[0]?).map konst else none
+  | .temporalLoopBound => (stepsA op).map konst
+  | .bypassSIMD => some (konst 0)
+  | _ => none
+
+/-- What every gemmx kernel register means, read off the operation (kernel attributes, stride patterns), independent
+of the generator's parameter record. -/
+def gemmxSpec (n : Nat) (op : GemmxOp) (f : Field) : Option Den :=
+  match op.kernel with
+  | .mac zp => macSpec n op zp f
+  | .rescale r => rescaleSpec n op r f
+  | .other => none
+
+/-- all registers of gemmx: the kernel registers by `gemmxSpec`, the others by the streamer meaning -/
+def gemmxFullSpec (cfg : List Streamer) (n : Nat) (op : GemmxOp) (f : Field) : Option Den :=
+  match f with
+  | .K | .N | .M | .subtractions | .csr0 | .csr1 | .shift _ | .mult _ | .temporalLoopBound | .bypassSIMD =>
+    gemmxSpec n op f
+  | f => streamMeaning cfg op.s f
+
 def xdmaMeaning (cfg : List Streamer) (op : XdmaOp) : Field → Option Den
   | .enabledChan s => (op.s.zero[s]?).map fun z => konst (if z then 0 else -1)
   | .enabledByte s => (op.s.zero[s]?).map fun z => konst (if z then 0 else -1)
